@@ -27,8 +27,11 @@ unconditionally (`printPred_eq_lay`, …).
 
 ## The printable domain (`PrintText.printable*`, decidable, content level)
 
-* integers: `0 ≤ i < 2^63`.  A negative integer prints as `-5`, which the lexer reads as the
-  operator `-` and the integer `5` (`neg_int_fails`); from `2^63` on the text parses but the
+* integers: `-2^63 ≤ i < 2^63` (int64).  A negative integer prints as `-5`, no blank, which the
+  lexer reads as the operator `-` and the integer `5`; where a term starts the parser takes the
+  two tokens as ONE signed literal (`PTerm.negInt`, `neg_int_roundtrips`; after a complete
+  operand a `-` is the binary operator, and `1 - -5` prints and reads back as such:
+  `neg_int_in_expr_roundtrips`); from `2^63` on and below `-2^63` the text parses but the
   conversion rejects it (`big_int_fails`).
 * strings: valid UTF-8 (`utf8OK`: the printer decodes with `String.fromUTF8!`, which gives the
   empty text otherwise: `invalid_utf8_fails`) without `"` (printed without escaping:
@@ -85,7 +88,7 @@ instance (c : Check) : Decidable (PrintableCheck c) := inferInstanceAs (Decidabl
 /-- What the domain says, literal by literal. -/
 theorem printableAtom_iff (a : Atom) : PrintableAtom a ↔
     match a with
-    | .int i => 0 ≤ i ∧ i < 2 ^ 63
+    | .int i => -(2 ^ 63) ≤ i ∧ i < 2 ^ 63
     | .str s => utf8OK s = true ∧ ∀ c ∈ charsOfBytes s, c ≠ '"'
     | .date d => d < 253402300800
     | .bytes _ => True
@@ -452,17 +455,37 @@ def checksOnly (cs : List Check) : ParsedContent := { facts := [], rules := [], 
 /-- What the printed text of a fact denotes. -/
 def reread (p : Pred Val) : Option ParsedContent := (parseSingleText (printPred p)).bind denoteItem
 
-/-- Negative integers: `f(-5)` is lexed as `f ( - 5 )`, which is no fact. -/
-theorem neg_int_fails :
-    ¬ PrintablePred (f1 (tInt (-5))) ∧ String.ofList (printPred (f1 (tInt (-5)))) = "f(-5)" ∧
+/-- Negative integers are INSIDE the domain: `f(-5)` is lexed as `f ( - 5 )`, the sign and the
+digits are one literal, and the fact comes back — down to `-2^63`, also inside a set (where the
+printed order is the order of the texts: `-1` before `-2` before `3`). -/
+theorem neg_int_roundtrips :
+    PrintablePred (f1 (tInt (-5))) ∧ String.ofList (printPred (f1 (tInt (-5)))) = "f(-5)" ∧
     lex (printPred (f1 (tInt (-5)))) = some [.ident "f", .punct '(', .op "-", .int ['5'], .punct ')'] ∧
-    reread (f1 (tInt (-5))) = none := by decide +kernel
+    (parseSingleText (printPred (f1 (tInt (-5))))).map renderItem =
+      some [.ident "f", .punct '(', .op "-", .int ['5'], .punct ')'] ∧
+    reread (f1 (tInt (-5))) = some (factsOnly [f1 (tInt (-5))]) ∧
+    PrintablePred (f1 (tInt (-(2 ^ 63)))) ∧
+    String.ofList (printPred (f1 (tInt (-(2 ^ 63))))) = "f(-9223372036854775808)" ∧
+    reread (f1 (tInt (-(2 ^ 63)))) = some (factsOnly [f1 (tInt (-(2 ^ 63)))]) ∧
+    String.ofList (printPred (f1 (.const (.set [.int 3, .int (-2), .int (-1)])))) = "f([-1, -2, 3])" ∧
+    reread (f1 (.const (.set [.int 3, .int (-2), .int (-1)]))) =
+      some (factsOnly [f1 (.const (.set [.int (-1), .int (-2), .int 3]))]) := by decide +kernel
 
-/-- Integers from `2^63` on: the text parses, the conversion rejects the literal. -/
+/-- The same through the general theorem. -/
+theorem neg_int_roundtrip :
+    (parseSingleText "f(-5)".toList).bind denoteItem = some (factsOnly [f1 (tInt (-5))]) := by
+  have ht : String.ofList (printPred (f1 (tInt (-5)))) = "f(-5)" := by decide +kernel
+  rw [← ht, String.toList_ofList]
+  exact print_parse_denote_fact_sorted (f1 (tInt (-5))) (by decide +kernel) (by decide +kernel)
+
+/-- Integers from `2^63` on and below `-2^63`: the text parses, the conversion rejects the literal. -/
 theorem big_int_fails :
     ¬ PrintablePred (f1 (tInt (2 ^ 63))) ∧ (parseSingleText (printPred (f1 (tInt (2 ^ 63))))).isSome = true ∧
     reread (f1 (tInt (2 ^ 63))) = none ∧
-    PrintablePred (f1 (tInt (2 ^ 63 - 1))) := by decide +kernel
+    PrintablePred (f1 (tInt (2 ^ 63 - 1))) ∧
+    ¬ PrintablePred (f1 (tInt (-(2 ^ 63) - 1))) ∧
+    (parseSingleText (printPred (f1 (tInt (-(2 ^ 63) - 1))))).isSome = true ∧
+    reread (f1 (tInt (-(2 ^ 63) - 1))) = none := by decide +kernel
 
 /-- A `"` inside a string ends the literal early (the printer does not escape). -/
 theorem quote_in_string_fails :
@@ -542,6 +565,26 @@ theorem precedence_fails :
     String.ofList (printExpr
       [.value (tInt 1), .value (tInt 2), .binary .add, .unary .parens, .value (tInt 3), .binary .mul]) =
       "(1 + 2) * 3" := by decide +kernel
+
+/-- Negative literals inside expressions: the printer writes a binary minus with blanks and the
+sign without (`1 - -5 == 6`, `$x > -5`, `!-5`, `(-5).length()`); the texts read back to the same
+operator sequences. -/
+theorem neg_int_in_expr_roundtrips :
+    PrintableExpr [.value (tInt 1), .value (tInt (-5)), .binary .sub, .value (tInt 6), .binary .eq] ∧
+    String.ofList (printExpr [.value (tInt 1), .value (tInt (-5)), .binary .sub, .value (tInt 6), .binary .eq]) =
+      "1 - -5 == 6" ∧
+    rereadCheck (chk [.value (tInt 1), .value (tInt (-5)), .binary .sub, .value (tInt 6), .binary .eq]) =
+      some (checksOnly [chk [.value (tInt 1), .value (tInt (-5)), .binary .sub, .value (tInt 6), .binary .eq]]) ∧
+    PrintableExpr [.value (tVar "x"), .value (tInt (-5)), .binary .gt] ∧
+    String.ofList (printExpr [.value (tVar "x"), .value (tInt (-5)), .binary .gt]) = "$x > -5" ∧
+    rereadCheck (chk [.value (tVar "x"), .value (tInt (-5)), .binary .gt]) =
+      some (checksOnly [chk [.value (tVar "x"), .value (tInt (-5)), .binary .gt]]) ∧
+    PrintableExpr [.value (tInt (-5)), .unary .negate] ∧
+    String.ofList (printExpr [.value (tInt (-5)), .unary .negate]) = "!-5" ∧
+    PrintableExpr [.value (tInt (-5)), .unary .parens, .unary .length] ∧
+    String.ofList (printExpr [.value (tInt (-5)), .unary .parens, .unary .length]) = "(-5).length()" ∧
+    rereadCheck (chk [.value (tInt (-5)), .unary .parens, .unary .length]) =
+      some (checksOnly [chk [.value (tInt (-5)), .unary .parens, .unary .length]]) := by decide +kernel
 
 /-- CONSERVATIVE (inherited from `Layout.needSep`, which lists `.` among the characters that could
 continue a date): a date literal as receiver is outside the domain although the text reads back
